@@ -86,16 +86,21 @@ def run_diff_case(prog, params):
             sr = ScriptRunner(ex)
             t = build_both(sr, u, shape)
             key = 'mem_vs_phys|%s|%s%s' % (op, target_class(t, v), ('|dst=' + target_class(t, dst)) if dst else '')
-            if op in ('create_hold', 'append_hold'):
+            if op in ('create_hold', 'append_hold', 'create_seek_hold'):
                 # a create handle is held open while the path is observed, then written and dropped
                 sr.syms['wdata'] = sym_content(ex, 1, 'wdata')
                 res_ = {}
                 for pfx in ('M_', 'P_'):
-                    seq = ['hopen h%s %s%s %s' % (pfx, pfx, v, 'create' if op == 'create_hold' else 'append'), 'metadata %s%s' % (pfx, v), 'read %s%s 3' % (pfx, v), 'hwrite h%s $wdata' % pfx,
-                           'hflush h%s' % pfx, 'read %s%s 3' % (pfx, v), 'hdrop h%s' % pfx]
+                    if op == 'create_seek_hold':
+                        # write, seek strictly beyond the end, write again: the gap reads as zeros on both backends
+                        seq = ['hopen h%s %s%s create' % (pfx, pfx, v), 'hwrite h%s $wdata' % pfx, 'hseek h%s start 3' % pfx, 'hwrite h%s $wdata' % pfx,
+                               'hflush h%s' % pfx, 'read %s%s 6' % (pfx, v), 'hdrop h%s' % pfx]
+                    else:
+                        seq = ['hopen h%s %s%s %s' % (pfx, pfx, v, 'create' if op == 'create_hold' else 'append'), 'metadata %s%s' % (pfx, v), 'read %s%s 3' % (pfx, v), 'hwrite h%s $wdata' % pfx,
+                               'hflush h%s' % pfx, 'read %s%s 3' % (pfx, v), 'hdrop h%s' % pfx]
                     outs_ = []
                     for ln in seq:
-                        if ln.split()[0] in ('hwrite', 'hflush') and ('h' + pfx) not in sr.handles:
+                        if ln.split()[0] in ('hwrite', 'hflush', 'hseek') and ('h' + pfx) not in sr.handles:
                             continue
                         sr.do(ln)
                         outs_.append((ln.split()[0], sr.last))
